@@ -399,6 +399,94 @@ static void grid(const std::vector<T>& g, const std::vector<T>& probes, LocalCou
                         ++lc.skipped;
                 }
             }
+            // ---- operands that alias the receiver: its own bounds handed back to it, the range itself as the other operand ----
+            {
+                struct
+                {
+                    const char* n;
+                    int k;
+                } aops[] = {{"plus_own_first", 0},  {"plus_own_last", 1},  {"minus_own_first", 2}, {"minus_own_last", 3}, {"mult_own_first", 4},
+                            {"mult_own_last", 5},  {"plus_self", 6},      {"minus_self", 7},      {"mult_self", 8},      {"union_self", 9},
+                            {"inter_self", 10},    {"union_own_first", 11}, {"inter_own_last", 12}, {"geq_own_first", 13}, {"leq_own_last", 14},
+                            {"gt_own_first", 15},  {"lt_own_last", 16}};
+                for (auto& o : aops) {
+                    W lo = 0, hi = 0;
+                    bool empty = false;
+                    switch (o.k) {
+                    case 0: lo = (W)a + (W)a; hi = (W)b + (W)a; break;
+                    case 1: lo = (W)a + (W)b; hi = (W)b + (W)b; break;
+                    case 2: lo = (W)a - (W)a; hi = (W)b - (W)a; break;      // (inf - inf is no result)
+                    case 3: lo = (W)a - (W)b; hi = (W)b - (W)b; break;
+                    case 4:
+                    case 5: {
+                        W e = o.k == 4 ? (W)a : (W)b;
+                        W p1 = (W)a * e, p2 = (W)b * e;
+                        if (!Wide<T>::ok(p1) || !Wide<T>::ok(p2)) {
+                            lo = p1;
+                            hi = p1;      // skipped below when not representable; a NaN product is never representable
+                            if (Wide<T>::ok(p1))
+                                lo = hi = p2;
+                            break;
+                        }
+                        lo = std::min(p1, p2);
+                        hi = std::max(p1, p2);
+                        break;
+                    }
+                    case 6: lo = (W)a + (W)a; hi = (W)b + (W)b; break;
+                    case 7: lo = (W)a - (W)b; hi = (W)b - (W)a; break;
+                    case 8: {
+                        W p[4] = {(W)a * (W)a, (W)a * (W)b, (W)b * (W)a, (W)b * (W)b};
+                        lo = *std::min_element(p, p + 4);
+                        hi = *std::max_element(p, p + 4);
+                        for (W q : p)
+                            if (!Wide<T>::ok(q))
+                                lo = hi = q;      // skipped below
+                        break;
+                    }
+                    case 9:
+                    case 10:
+                    case 13:
+                    case 14: lo = (W)a; hi = (W)b; break;
+                    case 11: lo = (W)a; hi = (W)b; break;
+                    case 12: lo = (W)b; hi = (W)b; break;
+                    case 15: lo = (W)a; hi = (W)b; empty = !(a < b); break;      // x > a within [a,b]
+                    case 16: lo = (W)a; hi = (W)b; empty = !(a < b); break;      // x < b within [a,b]
+                    }
+                    if (!Wide<T>::ok(lo) || !Wide<T>::ok(hi)) {
+                        ++lc.skipped;
+                        continue;
+                    }
+                    R r = base;
+                    switch (o.k) {
+                    case 0: r += r.first(); break;
+                    case 1: r += r.last(); break;
+                    case 2: r -= r.first(); break;
+                    case 3: r -= r.last(); break;
+                    case 4: r *= r.first(); break;
+                    case 5: r *= r.last(); break;
+                    case 6: r += r; break;
+                    case 7: r -= r; break;
+                    case 8: r *= r; break;
+                    case 9: r |= r; break;
+                    case 10: r &= r; break;
+                    case 11: r |= r.first(); break;
+                    case 12: r &= r.last(); break;
+                    case 13: r.geq(r.first()); break;
+                    case 14: r.leq(r.last()); break;
+                    case 15: r.gt(r.first()); break;
+                    case 16: r.lt(r.last()); break;
+                    }
+                    lc.op(o.n);
+                    if (o.k == 15 || o.k == 16) {
+                        // strict bound by an own end point: that end point leaves, everything else stays
+                        bool ok = empty ? r.empty()
+                                        : (!r.empty() && (o.k == 15 ? ((W)r.last() == (W)b && r.first() > a) : ((W)r.first() == (W)a && r.last() < b)));
+                        if (!ok)
+                            viol(std::string(o.n) + ":" + tn, bs + " " + o.n);
+                    } else if (r.empty() || !((W)r.first() == lo && (W)r.last() == hi))
+                        viol(std::string(o.n) + ":" + tn, bs + " " + o.n + " gives [" + vs(r.first()) + "," + vs(r.last()) + "]");
+                }
+            }
             if constexpr (std::is_integral_v<T>) {
                 W n = (W)b - (W)a + 1;
                 if (n <= (W)UINT32_MAX) {
